@@ -57,12 +57,13 @@ type wireStats struct {
 	MONonIdent int64             `json:"mo_non_identity"`
 	Steps      int64             `json:"steps"`
 	Samples    []Sample          `json:"samples"`
+	SetsCapped bool              `json:"sets_capped"`
 }
 
 func toWire(s *Stats) *wireStats {
 	w := &wireStats{
 		Runs: s.Runs, NonTrivial: s.NonTrivial, Counters: s.Counters, Known: s.Known, KnownMsg: s.KnownMsg,
-		MOApplied: s.MOApplied, MONonIdent: s.MONonIdent, Steps: s.Steps, Samples: s.Samples,
+		MOApplied: s.MOApplied, MONonIdent: s.MONonIdent, Steps: s.Steps, Samples: s.Samples, SetsCapped: s.SetsCapped,
 	}
 
 	for k := range s.States {
@@ -98,6 +99,7 @@ func fromWire(w *wireStats) *Stats {
 	}
 
 	s.Samples = w.Samples
+	s.SetsCapped = w.SetsCapped
 
 	return s
 }
@@ -875,6 +877,7 @@ func writeEvidence(eng Engine, o *Options, agg *Stats, wall float64, nviol int, 
 		"counters":                 counters,
 		"distinct_model_states":    len(agg.States),
 		"distinct_run_event_logs":  distinct,
+		"distinct_counts_are_lower_bounds": agg.SetsCapped,
 		"s1_map_range_executions":  agg.MOApplied,
 		"s1_non_identity_orders":   agg.MONonIdent,
 		"simulated_time":           "not applicable: the library reads no clock and has no timer; progress is counted in scheduler steps and operations",
